@@ -75,6 +75,14 @@ class References:
   def _initialize_segments(self):
     for sn_with_o in self.segment_names:
       s = self._gfa.segment(sn_with_o.line)
+      if s is None:
+        if self._gfa._segments_first_order:
+          raise gfapy.NotFoundError()
+        s = gfapy.line.segment.GFA1({"name" : sn_with_o.line,
+                                     "sequence" : "*"},
+                                    version = "gfa1",
+                                    virtual = True)
+        s.connect(self._gfa)
       sn_with_o.line = s
       s._add_reference(self, "paths")
 
